@@ -226,6 +226,44 @@ def l1_layout(s0: int, s1: int, s2: int, piece: int, reported: int = 0) -> bool:
     return ok
 
 
+class _GonePath(_FakePath):
+    def open(self, mode):
+        raise FileNotFoundError(2, 'No such file or directory (removed after it was listed)', self.name)
+
+
+def l1_vanished(s0: int, s2: int, piece: int) -> bool:
+    """The middle one of three listed files has disappeared when it is opened: either the stream ends with that error, or
+    whatever is streamed afterwards still starts at an aligned offset with less than 4 bytes of padding and offsets consistent.
+    pre: 0 <= s0 and 0 <= s2 and piece >= 1 and s0 <= 3 * piece and s2 <= 3 * piece
+    post: _
+    """
+    _L1Self.st_sizes['any'] = 0
+    files = [_FakePath('f0', s0), _GonePath('f1', 5), _FakePath('f2', s2)]
+    state = R._SnapshotState()
+    gen = _MK_STREAM_FILES(_L1Self, files, state)(piece)
+    produced = 0
+    ok = True
+    try:
+        for blob in gen:
+            if isinstance(blob, _Pad) and blob.k > 3:
+                ok = False
+            produced += blob.k
+    except FileNotFoundError:
+        with NoTracing():
+            tick('l1v', None)
+        return True
+    prev_end = 0
+    for start, f in state.files:
+        if f.stream_start % 4 != 0 or f.stream_start < prev_end or f.stream_start - prev_end > 3:
+            ok = False
+        prev_end = f.stream_end
+    if produced != state.bytes_with_padding:
+        ok = False
+    with NoTracing():
+        tick('l1v', None)
+    return ok
+
+
 # =========================================================================== S: P1 restore plan
 class _PlanSelf(RealFallback):
     """`self` for the lifted planning statements of restore(): real helpers, recording metadata restore."""
